@@ -189,8 +189,7 @@ def run(tier):
                     allowed = heapy_types(sig_types(o)) if o else set()
                     check_body(rep, "%s :: %s" % (key0, name), exp, im, allowed, cfg)
     rep.floor("bodies_checked", 150)
-    rep.floor("generator_literals_scanned", 80)
-    rep.floor("dyn_literal_sites", 2)
+    rep.floor("generator_literals_scanned", 60)  # vacuity guard (94 today)
     rep.coverage.update({"programs": programs, "disagreements_checked": rep.counters.get("bodies_checked", 0),
                          "explanation": "for every generated body of a static-delegation expansion (fn, mod, trait with Self/selector delegation, non-ref impl block; async_trait excluded): no callee in alloc, no InstanceKind::Virtual callee, no callee whose Self is dyn, no unsizing adjustment, and no Box/Rc/Arc/Vec/String/dyn type among the body's expression types or the generated signatures beyond those the user's own signature contains; async trait methods return an opaque future, never Pin<Box<..>>. A wrapper without allocation site or dynamic call adds zero allocations at any call depth (each level is such a wrapper).",
                          "configs": configs})
